@@ -13,6 +13,10 @@ CLAIMED = {
   "technique": "Coq theorems by exhaustive case analysis over the regenerated Gallina model of pkg/cast (value universe with VOther/VByteArr) + differential run on a ~40-type universe",
   "text": "Machine-checked proof that every cast function of the regenerated model (cast.To for every sample, ToDate, ToTimestamp, ToNumber), on every dynamic value — VOther standing for every unsupported dynamic type at once, VByteArr for byte arrays of any length — never panics, never exhausts the unrolling fuel, returns nil exactly for nil input and otherwise a value of exactly the requested kind, or an error whose sentinel wraps the root sentinel according to the table read from errors.go. Tied to the code by regeneration and ~7k differential cases per run over named types, typed nils, pointers, structs, maps, slices, funcs, channels, arrays. The row-level consequence (raw value of a typed column) is covered by the template model (see C13).",
   "note": TB1 + "The reflect fallback of ToBinary is a hand model guarded by an AST digest. " + AX},
+ "C12": {
+  "technique": "Coq theorems over the regenerated Gallina model of pkg/cast (decimal print/parse inverse proved on all of Z; JSON number grammar); floats under named strconv hypotheses + differential run and read-back oracle on the real package",
+  "text": "Machine-checked proof that in the regenerated model every value of the ten integer types renders (ToString, ToNumber) as its canonical decimal, that this text satisfies encoding/json's number grammar and marshals, and that casting it back (as string and as json.Number) returns exactly the value; booleans likewise. PARTIAL for floats: shortest float formatting and parsing are strconv's and are oracles; the theorems prove that the regenerated code formats with verb 'f', precision -1 and the value's own bit size and parses at the same bit size, so that the hypotheses H_float_rt, H_float_syn, H_float_nonfinite (and the model-level premise H_f32_embed) give bit-exact read-back and non-marshalling of NaN/Inf. The hypotheses are tested against the installed strconv on every float of every run; a read-back oracle on the real package supplies failing inputs.",
+  "note": TB1 + "Premises of the float theorems: H_float_rt, H_float_syn, H_float_nonfinite (about strconv), H_f32_embed (about the Layer-0 float32<->float64 conversions). " + AX},
  "C11": {
   "technique": "Coq theorems over the Gallina model regenerated from pkg/cast by the translator (little-endian bijection lemmas) + differential run of the model (vm_compute) against the real package",
   "text": "Machine-checked proof that the regenerated model of pkg/cast encodes every value of every fixed-width type as its little-endian image of the type's size, that decode-after-encode and encode-after-decode are identities for all values / all byte strings of that size, and that every other length is rejected with the sentinel; floats as raw bit patterns, bool as the normalising 1-byte case. Tied to the code by regeneration and ~10k differential cases per run.",
